@@ -1,4 +1,6 @@
 ---- MODULE HandlesGen ----
 EXTENDS Handles, Json
 Emit == PrintT("CASE " \o ToJson([hist |-> hist]))
+\* all histories of exactly MaxLen steps (no VIEW: the history is part of the state)
+EmitFull == Len(hist) = MaxLen => PrintT("CASE " \o ToJson([hist |-> hist]))
 ====
